@@ -134,6 +134,6 @@ func c03Check(in []byte, vr *rjson.ValueReader) (info c03Info, err error) {
 
 // CheckC03 uses a fresh reader (reader reuse is C15's subject).
 func CheckC03(c *core.Case) error {
-	_, err := c03Check([]byte(c.In), nil)
+	_, err := c03Check(inputOf(c), nil)
 	return err
 }
